@@ -1,7 +1,7 @@
 (** C05 — property theorems: command output is a function of input and options, not of parallelism. *)
 From Coq Require Import List Arith NArith Bool Permutation.
 From OBI.Common Require Import Reseq.
-From OBI.C05 Require Import Model Proofs Records RecordsProofs.
+From OBI.C05 Require Import Model Proofs Records RecordsProofs Stages StagesProofs Summary SummaryProofs.
 From Coq Require Import ZArith NArith.
 From Coq Require Import String.
 From Coq Require Import List.
@@ -106,6 +106,81 @@ Theorem C05_csv_any_config : forall (keys : list (list N)) (l : list rec) (P : l
   pipeline_out (list aval) arr = flat_map (csv_f keys) l.
 Proof. exact csv_any_config. Qed.
 
+(** ---- round 3: stages that merge or split streams, and the merge of obisummary's partial summaries ---- *)
+
+(** IBioSequence.Concat (transcribed renumbering: order + previous_max, previous_max = largest number pushed + 1):
+    whatever the arrival order inside each of the iterators (each one any permutation of its numbered batches), the
+    batches pushed downstream are, up to order, the numbered batches of the streams put one after the other ... *)
+Theorem C05_concat_any_arrival : forall (X : Type) (bss : list (list X)) (its : list (list (nat * X))),
+  Forall2 (fun it bs => Permutation it (numbered bs)) its bss ->
+  Permutation (concat_stage X its) (numbered (concat bss)).
+Proof. exact concat_numbering. Qed.
+
+(** ... so the order-restoring consumer delivers the first stream, then the second, and so on. *)
+Theorem C05_concat_output : forall (X : Type) (bss : list (list X)) (its : list (list (nat * X))),
+  Forall2 (fun it bs => Permutation it (numbered bs)) its bss ->
+  out (run (concat_stage X its)) = concat bss.
+Proof. exact concat_stage_output. Qed.
+
+(** IBioSequence.DivideOn (transcribed loop with its two buffers and two counters), every batch size: both output
+    streams are numbered 0, 1, 2, ... without hole, and carry in input order the selected / the rejected records. *)
+Theorem C05_divide_spec : forall (A : Type) (size : nat) (p : A -> bool) (l : list A),
+  let T := fst (divide A size p l) in let F := snd (divide A size p l) in
+  map fst T = seq 0 (length T) /\ concat (map snd T) = filter p l /\
+  map fst F = seq 0 (length F) /\ concat (map snd F) = filter (fun x => negb (p x)) l.
+Proof. exact divide_spec. Qed.
+
+Theorem C05_divide_output : forall (A : Type) (size : nat) (p : A -> bool) (l : list A),
+  concat (out (run (fst (divide A size p l)))) = filter p l /\
+  concat (out (run (snd (divide A size p l)))) = filter (fun x => negb (p x)) l.
+Proof. exact divide_output. Qed.
+
+(** IBioSequence.Rebatch(size), size >= 1 (transcribed loop: space, to_push, remains, buffer): the batches pushed are numbered
+    0, 1, 2, ... without hole, carry the records of the incoming (sorted) batches in order, and all hold [size] records
+    except the last one, which is neither empty nor larger. *)
+Theorem C05_rebatch_spec : forall (A : Type) (size : nat), 0 < size -> forall (batches : list (list A)),
+  let R := rebatch A size batches in
+  map fst R = seq 0 (length R) /\ concat (map snd R) = concat batches /\
+  Forall (fun b => 0 < length (snd b) <= size) R /\
+  Forall (fun b => length (snd b) = size) (removelast R).
+Proof. exact rebatch_spec. Qed.
+
+(** obisummary (DataSummary.Update / Add / ISummary transcribed over one table of counters): whatever the partition of
+    the input into batches [P], whatever the batches each worker happened to take [W] and hence the order of the merge,
+    EVERY counter of the merged summary (the six integers and every entry of the seven maps, absent entries included)
+    reads as in the summary computed by one worker in one pass ... *)
+Theorem C05_summary_any_config : forall (c : ctr) (l : list srec) (P : list (list srec)) (W : list (list (list srec))),
+  concat P = l -> Permutation (concat W) P -> Summary.get c (summ_workers W) = Summary.get c (summ_seq l).
+Proof. exact summary_any_config. Qed.
+
+(** ... and every map has the same number of keys (what is printed as scalar_attributes, sample_count, ...). *)
+Theorem C05_summary_keys_any_config : forall (l : list srec) (P : list (list srec)) (W : list (list (list srec))) (n : N),
+  concat P = l -> Permutation (concat W) P -> nkeys n (summ_workers W) = nkeys n (summ_seq l).
+Proof. exact nkeys_any_config. Qed.
+
+(** DataSummary.Add is the counter-wise sum (an entry absent on both sides stays absent). *)
+Theorem C05_summary_add_is_sum : forall (c : ctr) (s1 s2 : summary), Summary.get c (add s1 s2) = oadd (Summary.get c s1) (Summary.get c s2).
+Proof. exact add_is_sum. Qed.
+
+Example C05_round3_nonvacuous :
+  (* Concat of two iterators whose batches arrive as 1,0 and 2,0,1: renumbered 1,0,4,2,3 *)
+  concat_stage nat [[(1, 11); (0, 10)]; [(2, 22); (0, 20); (1, 21)]] = [(1, 11); (0, 10); (4, 22); (2, 20); (3, 21)]
+  /\ out (run (concat_stage nat [[(1, 11); (0, 10)]; [(2, 22); (0, 20); (1, 21)]])) = [10; 11; 20; 21; 22]
+  (* Rebatch(3) of batches of 2, 4, 0 and 1 records *)
+  /\ rebatch nat 3 [[1; 2]; [3; 4; 5; 6]; []; [7]] = [(0, [1; 2; 3]); (1, [4; 5; 6]); (2, [7])]
+  (* DivideOn with batches of 2 on 1..7, even numbers selected *)
+  /\ divide nat 2 Nat.even [1; 2; 3; 4; 5; 6; 7] = ([(0, [2; 4]); (1, [6])], [(0, [1; 3]); (1, [5; 7])])
+  (* two workers sharing three batches of records carrying a sample: the merged table has another layout than the
+     one-pass table but reads the same *)
+  /\ (let r := fun (k : N) (n : Z) => mksrec n 10 None None (Some [k]) false false [([115%N], TScalar)] in
+      let l := [r 65%N 1%Z; r 66%N 2%Z; r 65%N 3%Z; r 67%N 1%Z] in
+      let W := [[[r 67%N 1%Z]]; [[r 65%N 3%Z]; [r 65%N 1%Z; r 66%N 2%Z]]] in
+      summ_workers W <> summ_seq l /\ Summary.get (K 9 [65%N]) (summ_workers W) = Some 4%Z /\ Summary.get (K 9 [65%N]) (summ_seq l) = Some 4%Z
+      /\ Summary.get (K 11 [67%N]) (summ_workers W) = Some 1%Z /\ Summary.get (K 11 [66%N]) (summ_workers W) = None /\ nkeys 9 (summ_workers W) = 3%nat).
+Proof.
+  repeat split; try (vm_compute; reflexivity). vm_compute. discriminate.
+Qed.
+
 Example C05_nonvacuous :
   (* a 3-batch configuration with an empty batch, arrival order 2,0,1, f duplicating records *)
   pipeline_out nat [(2, [5;5]); (0, [1;1;2;2]); (1, [])] = flat_map (fun x => [x;x]) [1;2;5]
@@ -130,3 +205,11 @@ Print Assumptions C05_count_any_config.
 Print Assumptions C05_revcomp_involutive.
 Print Assumptions C05_revcomp_loop_spec.
 Print Assumptions C05_csv_any_config.
+Print Assumptions C05_concat_any_arrival.
+Print Assumptions C05_concat_output.
+Print Assumptions C05_divide_spec.
+Print Assumptions C05_divide_output.
+Print Assumptions C05_rebatch_spec.
+Print Assumptions C05_summary_any_config.
+Print Assumptions C05_summary_keys_any_config.
+Print Assumptions C05_summary_add_is_sum.
